@@ -119,6 +119,12 @@ def r1_r2_formulas(repo: Repo, rep):
             if p.ret is RAISE or p.ret is None:
                 continue
             e = expand_helpers(repo, ci, p.ret, domain_cls=dci)
+            borrowed = sorted({dump(c.func)[:50] for c in ast.walk(e) if isinstance(c, ast.Call) and isinstance(c.func, ast.Attribute) and c.func.attr in ("volume", "_get_volume")
+                               and dump(c.func.value) != "self"})
+            if borrowed:
+                rep.violation(R1, fi.site(p.ret_node), fi.fq, f"{txt} from the shape parameters", f"derived from {borrowed}: a user-set volume of that object (or its estimate) leaks into this measure",
+                              f"measure borrowed from {borrowed}")
+                continue
             ev = SymEval(shape_atom)
             try:
                 v = ev.ev(e)
@@ -339,6 +345,62 @@ def r5_density(repo: Repo, rep):
             rep.check(R, ok, sf.site(), sf.fq, "if d: n = self.compute_n_from_density(d, params)", "density branch differs", "density branch")
 
 
+def r5b_estimated_volumes(repo: Repo, rep):
+    R = rep.rule("R-C10-5b", "domain operations never turn a density into a count through their own volume (it is a documented estimate for union / intersection / non-contained cut / dependent product): "
+                 "they sample their operands with the density", floor=4,
+                 why="ceil(d * estimate) points are returned where d * |actual set| are expected")
+    ops = f"{DOM}.domainoperations"
+    n = 0
+    for mod in ("union", "cut", "intersection"):
+        m = repo.module(f"{ops}.{mod}")
+        for ci in m.classes.values():
+            for fi in ci.methods.values():
+                if not fi.name.startswith(("sample_", "_sample_")):
+                    continue
+                n += 1
+                rep.saw(fi)
+                calls = [c for c in ast.walk(fi.node) if isinstance(c, ast.Call) and isinstance(c.func, ast.Attribute) and c.func.attr == "compute_n_from_density" and dump(c.func.value) == "self"]
+                rep.check(R, not calls, fi.site(calls[0]) if calls else fi.site(), fi.fq, "no self.compute_n_from_density in a domain operation's sampler", dump(calls[0])[:80] if calls else "", "own volume used for a density")
+    if n == 0:
+        rep.undecided(R, "src/torchphysics/problem/domains/domainoperations", "operations", "sampling methods of the domain operations", "none found")
+
+
+def r5c_density_grids(repo: Repo, rep):
+    R = rep.rule("R-C10-5c", "a grid asked for by density is the regular grid alone: helpers that draw random points (top-up to an exact count) run only when the count was given", floor=3,
+                 why="the documented result of sample_grid(d=..) is a complete regular grid of at most ceil(d * measure) points, the same on every call")
+    D = repo.cls(f"{DOM}.domain.Domain")
+    n = 0
+    for ci in repo.subclasses(D, strict=True):
+        if ci.module.name.split(".")[-1] not in MODS:
+            continue
+        fi = ci.methods.get("sample_grid")
+        if fi is None:
+            continue
+        # methods of the class that draw random numbers (directly or through self.sample_random_uniform)
+        rnd = set()
+        for name, m in ci.methods.items():
+            if name in ("sample_grid", "sample_random_uniform"):
+                continue
+            if any(isinstance(c, ast.Call) and (attr_chain(c.func) in ("torch.rand", "torch.randn", "torch.rand_like", "torch.randperm") or dump(c.func) == "self.sample_random_uniform") for c in ast.walk(m.node)):
+                rnd.add(name)
+        if not rnd:
+            continue
+        n += 1
+        rep.saw(fi)
+        dname = "d" if "d" in fi.params else None
+        for p in paths(fi.node):
+            if p.ret is RAISE or p.ret is None:
+                continue
+            dens = [pol for g, pol, k in p.guards if k == "if" and dump(g) == dname]
+            if not dens or not dens[0]:
+                continue
+            used = sorted({c.func.attr for e in p.events if e.value is not None for c in ast.walk(e.value)
+                           if isinstance(c, ast.Call) and isinstance(c.func, ast.Attribute) and dump(c.func.value) == "self" and c.func.attr in rnd})
+            rep.check(R, not used, fi.site(p.ret_node), fi.fq, "the density branch returns the regular grid without random top-up", f"calls {used} (random points) for a density", f"density grid topped up by {used}")
+    if n == 0:
+        rep.undecided(R, D.module.relpath, D.fq, "primitives with random top-up helpers", "none found")
+
+
 def r7_no_param_cache(repo: Repo, rep):
     R = rep.rule("R-C10-7", "no volume / bounding-box method caches a parameter-dependent value on the domain", floor=20,
                  why="a value cached for the first parameter rows is returned for all later, different rows")
@@ -374,6 +436,8 @@ def run(repo: Repo, rep):
     r4_override(repo, rep)
     r5_density(repo, rep)
     r7_no_param_cache(repo, rep)
+    r5b_estimated_volumes(repo, rep)
+    r5c_density_grids(repo, rep)
     from .c06 import r4c_mesh_outward  # the mesh volume is signed: it is the measure only for outward-facing faces
     r4c_mesh_outward(repo, rep)
     try:
